@@ -1,5 +1,5 @@
 (* operations of the Gaussian94 whole-file model (kept apart from OpsFormats.v: G94Ecp.gpot and NwchemEcp.epot share field names) *)
-From BSE Require Import Model.Val Model.Basis Model.G94 Model.G94Ecp.
+From BSE Require Import Model.Val Model.Basis Model.G94 Model.G94Ecp Model.G94Family Model.Qchem.
 Definition dec_gpot (v : val) : res gpot :=
   do d <- as_dict v;
   do t <- (do x <- field "ecp_type" d; as_str x);
@@ -31,5 +31,9 @@ Definition ops_formats2 (op : string) (args : list val) : option (res val) :=
   match op, args with
   | "g94_write_all", [els; ecps] => Some (do e <- dec_zshells2 els; do c <- dec_zgecps ecps; do t <- g94_write_all e c; ok (VStr t))
   | "g94_read_all", [ls] => Some (do l <- dec_strs ls; do r <- g94_read_all l; ok (VList (map (fun ze => VList [VInt (fst ze); enc_gel (snd ze)]) r)))
+  | "g94lib_write_all", [els; ecps] => Some (do e <- dec_zshells2 els; do c <- dec_zgecps ecps; do t <- g94lib_write_all e c; ok (VStr t))
+  | "xtron_write_all", [els; ecps] => Some (do e <- dec_zshells2 els; do c <- dec_zgecps ecps; do t <- xtron_write_all e c; ok (VStr t))
+  | "psi4_write_all", [els; ecps] => Some (do e <- dec_zshells2 els; do c <- dec_zgecps ecps; do t <- psi4_write_all e c; ok (VStr t))
+  | "qchem_write_all", [VStr role; els; ecps] => Some (do e <- dec_zshells2 els; do c <- dec_zgecps ecps; do t <- qchem_write_all role e c; ok (VStr t))
   | _, _ => None
   end.
